@@ -417,6 +417,7 @@ pub fn c02_probes() -> Vec<(&'static str, String)> {
         ("nested-retype-of-outer-variable", p("    mut x = 1\n    if True:\n        x = \"s\"\n    print(1)\n")),
         ("append-while-iterating", p("    mut ys = [1, 2]\n    for v in ys:\n        if v > 5:\n            ys.append(v)\n    print(len(ys))\n")),
         ("derive-partialord-alone", "@derive(PartialOrd)\nmodel M:\n    a: int\n\ndef main() -> None:\n    m = M(a=1)\n    print(1)\n".to_string()),
+        ("annotated-none-binding", p("    o: Option[int] = None\n    match o:\n        Some(v) => print(v)\n        None => print(0)\n")),
         ("default-parameter-omitted", "def f(a: int, b: int = 2) -> int:\n    return a + b\n\ndef main() -> None:\n    print(f(1))\n".to_string()),
         ("mutating-builtin-on-immutable-collection", p("    xs = [1]\n    xs.append(2)\n    print(len(xs))\n")),
         ("type-name-as-value-argument", "type Pos = newtype int\n\ndef show(p: Pos) -> None:\n    print(1)\n\ndef main() -> None:\n    f = Pos\n    show(f)\n".to_string()),
@@ -452,6 +453,8 @@ pub fn c02_negative() -> Vec<(&'static str, String)> {
         ("call-with-too-many-arguments", p("def f() -> int:\n    return takes_int(1, 2)\n")),
         ("call-with-unknown-keyword", p("def f() -> int:\n    return takes_int(v=1, zz=2)\n")),
         ("method-call-with-too-few-arguments", "class C:\n    n: int\n\n    def add(self, k: int) -> int:\n        return self.n + k\n\ndef main() -> None:\n    c = C(n=1)\n    print(c.add())\n".to_string()),
+        ("bodyless-method-in-adopting-class", "trait Loggable:\n    def log(self, msg: str) -> None: ...\n\nclass Service with Loggable:\n    name: str\n\n    def log(self, msg: str) -> None\n\ndef main() -> None:\n    print(1)\n".to_string()),
+        ("ellipsis-method-in-model", "model M:\n    a: int\n\n    def get(self) -> int: ...\n\ndef main() -> None:\n    print(1)\n".to_string()),
         ("mutating-method-on-immutable", "class C:\n    n: int\n\n    def bump(mut self) -> None:\n        self.n = self.n + 1\n\ndef main() -> None:\n    c = C(n=1)\n    c.bump()\n    print(c.n)\n".to_string()),
         // last: before the fix these overflowed the stack in lowering (the harness process dies with them)
         ("class-extends-itself", "class A extends A:\n    x: int\n\ndef main() -> None:\n    a = A(x=1)\n    print(a.x)\n".to_string()),
